@@ -17,7 +17,7 @@ BUILT = {
    note="Horizon 3x the model's span (<=300); known findings F3/F3b (ArrivalCurvePrefix yields 0) are listed in known_findings.json."),
  "C14": dict(tech=TV + " against Wcet.tla (prefix sums, closure floor, trace domination)",
    text="Cost tables of all cost-model kinds; Curve::from_trace on every cost trace of length<=5 over 1..3 (thorough 7) x every max_n checked by TLC against every run of consecutive trace entries; extrapolation checked to never raise a bound inside the extended prefix, to keep the prefix and to stay above the sub-additive closure.",
-   note="Known finding F7 (partial extrapolation raises bounds beyond the extended prefix) listed; cache histories are covered by the CurveCache stage when present."),
+   note="Known finding F7 (partial extrapolation raises bounds beyond the extended prefix) listed; histories of cost_of_jobs / least_wcet / job_cost_iter on shared wcet::ExtrapolatingCurve clones are replayed through the CurveCache machine (TraceCache.tla)."),
  "C16": dict(tech=TV + " of request-bound trees (TraceCost.tla)",
    text="One event per node of random request-bound trees: TLC checks service_needed = cost(number_arrivals), job_cost_iter sums, aggregate sums, least_wcet_in_interval, service_needed_by_n_jobs (monotone, bounded, saturating, n largest) and the per-component variant.",
    note="Trees of depth<=2 over all arrival x cost kinds and Box/Rc/&/Aggregate/Slice wrappers."),
@@ -54,6 +54,12 @@ BUILT = {
  "C05": dict(tech=WM + " (spec/Ros2Exec.tla, all priority orders consistent with the known priorities) + " + TV + " (Ros2Analyses.tla)",
    text="Workloads mixing timers, polled callbacks with known priority and with unknown priority (external arrival curves): for rr and for bw the bound vector is computed by iterating the real singleton-subchain analysis upwards from the WCETs until it reproduces itself; TLC then explores every execution of the executor world model for every priority order consistent with the known priorities against 'no pending instance reaches age R_i'. A further stage validates rr/bw against their definitional evaluation.",
    note="As C04; multi-callback subchains are covered equationally (C07), the property speaks of singleton fixed points."),
+ "C12": dict(tech=TV + ": window counts of generated traces, source/derived tables, delta_min_iter duality (TraceArrival.tla)",
+   text="Curve::from_trace on every event trace with <=5 events and gaps 0..3 (thorough <=7, 0..4) x every prefix length plus random longer traces: TLC computes the largest number of trace events in any window of every length up to twice the span and accepts iff the inferred curve is never below it; conversions (from_arrival_bound, from_arrival_bound_until, From<Periodic/Sporadic/&ArrivalCurvePrefix>, ArrivalCurvePrefix::from_arrival_bound_until) on random sources: never smaller than the source, equal up to the covered prefix / horizon; delta_min_iter: (n,x) exactly when the table of number_arrivals reaches n at x+1 and not at x.",
+   note="Sources whose own extrapolation is pessimistic are compared inside their exact region and against their exact root model; the literal shortfall beyond is known finding F11."),
+ "C13": dict(tech=TV + " (TraceArrival.tla) + replay of query histories through the CurveCache state machine (TraceCache.tla)",
+   text="extrapolate / extrapolate_steps / extrapolate_with_bound on every super-additive prefix of length 2-3 with entries <=6 (thorough 8) and random longer ones: values inside the original prefix unchanged, never more arrivals inside the extended prefix, never below the tight curve of the prefix-respecting sequences (Arrival.tla closure). Cache: seeded random histories (number_arrivals on three clones sharing the cache, live steps_iter iterators interleaved) are executed on the real ExtrapolatingCurve and replayed by TLC through the CurveCache machine; every answer must equal the eager (history-independent) answer and no call may panic.",
+   note="Known finding F6 (partial extrapolation raises values beyond the extended prefix) listed. The cache machine itself is model-checked for history independence (MCCurveCache)."),
 }
 m = {"version": 1, "setup_cmd": "bin/vf setup",
      "hooks": {"guard": "--cfg rta_verif",
